@@ -32,7 +32,7 @@ from hpstatic.xrnorm import atom_rewrite
 from . import c01
 from .common import const_list, norm_cond, beyond_guards
 
-MUTATION_TARGETS = {'holopy/core/io/io.py': ['pack_attrs', 'unpack_attrs', 'push', 'mean', 'std', 'load_average', 'save'], 'holopy/core/metadata.py': ['update_metadata', 'make_coords', 'data_grid', 'to_vector'], 'holopy/core/utils.py': ['updated']}
+MUTATION_TARGETS = {'holopy/core/io/io.py': ['pack_attrs', 'unpack_attrs', 'push', 'mean', 'std', 'load_average', 'save', 'load_image', 'load'], 'holopy/core/metadata.py': ['update_metadata', 'make_coords', 'data_grid', 'to_vector'], 'holopy/core/utils.py': ['updated']}
 
 LEVEL = 'other'
 META = dict(
@@ -40,7 +40,10 @@ META = dict(
     technique='effect analysis (copy-before-store, query purity), 3-valued '
               'evaluation of the writer\'s filter, writer/reader key-table '
               'agreement, canonical-form equality of the coordinate grid and of '
-              'Welford\'s recurrence',
+              'Welford\'s recurrence'
+              '; colour-channel selection (planes and labels derived from one request'
+              '); canonical-form equality of the TIFF restore step with the scale-fre'
+              'e inverse of the export stretch',
     level_text='Static: U1-U4 hold for all images/metadata (they are about which keys '
                'are written under which guard, which object is stored into, and the '
                'algebra of the running mean/variance).  Byte-level HDF5/TIFF '
